@@ -215,23 +215,34 @@ def judge(e2, f):
     (the predicate then receives both outputs)."""
     if f.scenario is None:
         return None, None
+    pairs = None
     if isinstance(f.scenario, dict) and "pair" in f.scenario:
-        obs = {}
-        rep = False
-        for profile in ("dev", "release"):
-            outs = []
-            for sc in f.scenario["pair"]:
-                o = e2.run_scenario(sc, profile)
-                if o is None:
-                    return None, {"error": e2.replay_build_err}
-                o["scenario"] = sc
-                outs.append(o)
-            obs[profile] = {"result": [o["result"] for o in outs], "logs": [o["log"] for o in outs]}
-            try:
-                rep = rep or bool(f.predicate(outs))
-            except Exception as ex:
-                obs[profile]["predicate_error"] = repr(ex)
-        return rep, obs
+        pairs = [f.scenario]
+    elif isinstance(f.scenario, list) and f.scenario and all(isinstance(x, dict) and "pair" in x for x in f.scenario):
+        pairs = f.scenario
+    if pairs is not None:
+        last = {}
+        for pr in pairs:
+            obs = {}
+            rep = False
+            for profile in ("dev", "release"):
+                outs = []
+                for sc in pr["pair"]:
+                    o = e2.run_scenario(sc, profile)
+                    if o is None:
+                        return None, {"error": e2.replay_build_err}
+                    o["scenario"] = sc
+                    outs.append(o)
+                obs[profile] = {"result": [o["result"] for o in outs], "logs": [o["log"] for o in outs]}
+                try:
+                    rep = rep or bool(f.predicate(outs))
+                except Exception as ex:
+                    obs[profile]["predicate_error"] = repr(ex)
+            last = obs
+            if rep:
+                f.scenario = pr
+                return True, obs
+        return False, last
     variants = f.scenario if isinstance(f.scenario, list) else [f.scenario]
     last = {}
     for sc in variants:
